@@ -456,6 +456,11 @@ def replay(rec, ctx):
                 r = _step(root, e)
                 if r is not None:
                     return [r]
+                if rec.get("probe") and i < len(rec["h"]) - 1:
+                    # the caller reads everything back between the calls (results are checked at the end / stepwise)
+                    for key in universe:
+                        if not narrow or key[0] == _fam_of(e):
+                            api_read(root, key, 1)
                 if stepwise or i == len(rec["h"]) - 1:
                     viol = _compare(root, universe, e, _fam_of(e) if (narrow and not stepwise) else None)
                     if viol and stepwise:
@@ -484,6 +489,7 @@ CONSTANTS
   MaxHist = {maxhist}
   MaxMulti = {maxmulti}
   InstFronts = {fronts}
+  Probes = {probes}
   SameFamily = {same}
 INVARIANT TypeOK
 INVARIANT LastWriteWins
@@ -494,6 +500,7 @@ ACTION_CONSTRAINT Emit
 
 
 def _run_edges(v, name, **kw):
+    kw.setdefault("probes", "{FALSE}")
     cfg = CFG.format(**kw)
     res = core.run_tlc("Repository", cfg, workers=1, seed=v.seed, tag="C06-" + name, timeout=3000)
     core.tlc_must_pass(res, "Repository/" + name)
@@ -516,11 +523,11 @@ def run(v):
     runs = []
     hd = '{"h", "d"}'
     if v.tier == "quick":
-        runs.append(("same-family-depth2", dict(species=hd, donors=hd, apis='{"add"}', maxhist=2, maxmulti=0, same="TRUE", fronts=ALLF)))
+        runs.append(("same-family-depth2", dict(species=hd, donors=hd, apis='{"add"}', maxhist=2, maxmulti=0, same="TRUE", fronts=ALLF, probes="{FALSE, TRUE}")))
         runs.append(("cross-family-depth1", dict(species='{"h", "d", "c"}', donors=hd, apis='{"add", "update"}', maxhist=1, maxmulti=0, same="FALSE", fronts=ALLF)))
         runs.append(("pair-updates-depth1", dict(species=hd, donors=hd, apis='{"update"}', maxhist=1, maxmulti=2, same="TRUE", fronts="{}")))
     else:
-        runs.append(("same-family-depth2", dict(species='{"h", "d", "c"}', donors=hd, apis='{"add", "update"}', maxhist=2, maxmulti=0, same="TRUE", fronts=ALLF)))
+        runs.append(("same-family-depth2", dict(species='{"h", "d", "c"}', donors=hd, apis='{"add", "update"}', maxhist=2, maxmulti=0, same="TRUE", fronts=ALLF, probes="{FALSE, TRUE}")))
         runs.append(("cross-family-depth1", dict(species='{"h", "d", "c"}', donors=hd, apis='{"add", "update"}', maxhist=1, maxmulti=2, same="FALSE", fronts=ALLF)))
         runs.append(("cross-family-depth2", dict(species=hd, donors='{"h"}', apis='{"add"}', maxhist=2, maxmulti=0, same="FALSE", fronts=ALLF)))
     unasserted = {}
@@ -533,7 +540,7 @@ def run(v):
                     unasserted[x["unasserted"]] = unasserted.get(x["unasserted"], 0) + 1
                 else:
                     v.violation(x["sig"], x["detail"], dict(rec, universe=universe))
-        v.add_cases(len(edges), keys=[json.dumps(r["h"]) for r in edges])
+        v.add_cases(len(edges), keys=[json.dumps([r.get("probe"), r["h"]]) for r in edges])
         if edges:
             v.sample({"run": name, "history": edges[len(edges) // 2]["h"]})
     from . import c06_trace
